@@ -135,7 +135,8 @@ def gen_plan(seed, tier="quick"):
         "explicit_h": r.random() < 0.3,
         "reader_sort_false": r.random() < 0.2,
         # joblib's thread backend (with joblib.parallel_backend("threading")): the chunk workers share one process
-        "backend": "threading" if r.random() < 0.12 else "loky",     # reader_kwargs={"sort": False}: traces and geometry in the file's own channel order
+        "backend": "threading" if r.random() < 0.12 else "loky",
+        "symlink": r.random() < 0.1,        # the recording's data file is a symbolic link into a store, its .meta beside the link     # reader_kwargs={"sort": False}: traces and geometry in the file's own channel order
         "interrupted_first": r.choice([None, None, None, {"kind": r.choice(["kill", "torn", "io_error", "interrupt", "short"]), "rseed": r.randrange(1 << 30)}]),
     }
 
@@ -320,6 +321,17 @@ def _run(plan, base):
         s2 = spikeglx.Reader(binf)
         src = s2.compress_file(keep_original=False, chunk_duration=0.1, n_threads=1)
         s2.close()
+    if plan.get("symlink"):
+        store = rec / "store" / "a1"
+        store.mkdir(parents=True)
+        obj = store / ("SHA256E-s0--5d10" + src.suffix)
+        src.rename(obj)
+        os.symlink(os.path.relpath(obj, rec), src)
+        if src.suffix == ".cbin":       # the header travels with the data file in such stores: link it too
+            chf = src.with_suffix(".ch")
+            objc = store / "SHA256E-s0--5d10.ch"
+            chf.rename(objc)
+            os.symlink(os.path.relpath(objc, rec), chf)
     sp = np.array(plan["spikes"], dtype=np.int64).reshape(-1, 3)
     log = []
     stats = {"faults": {}, "probes": {}, "outcomes": {}, "distinct": [], "steps": 0, "config": {}}
@@ -338,6 +350,8 @@ def _run(plan, base):
         stats["config"]["reader_sort_false"] = 1
     if plan.get("backend") == "threading":
         stats["config"]["thread_backend"] = 1
+    if plan.get("symlink"):
+        stats["config"]["data_file_is_a_symlink"] = 1
     sigbase = f"n{plan['n_jobs']}"
     try:
         if not valid.any():
@@ -646,7 +660,7 @@ def _check_files(plan, tag, out, V, neigh, sp, valid, ns, nap, od, res, chunk, n
 
 
 def shrink_candidates(plan):
-    for key, val in (("backend", "loky"), ("reader_sort_false", False), ("form", "bin"), ("delay", None), ("io_mode", False), ("preprocess", "none"), ("order", None), ("victim", None), ("p_switch", 0.0), ("prelude", None), ("interrupted_first", None)):
+    for key, val in (("symlink", False), ("backend", "loky"), ("reader_sort_false", False), ("form", "bin"), ("delay", None), ("io_mode", False), ("preprocess", "none"), ("order", None), ("victim", None), ("p_switch", 0.0), ("prelude", None), ("interrupted_first", None)):
         if plan.get(key) != val:
             c = dict(plan)
             c[key] = val
